@@ -170,6 +170,15 @@ EQUIV_THOROUGH = [
 ]
 
 
+class OOB(str):
+  """Outcome of a trial in which the analysed program itself indexed out of bounds."""
+
+
+def _why(found, fmt):
+  return ('the program indexes an array out of bounds on this run (%s): JAX clamps such a gather and drops such a scatter silently, '
+          'so the two runs cannot agree' % found) if isinstance(found, OOB) else fmt()
+
+
 def trial(seed, body, max_tries=60, bool_default=None):
   for t in range(max_tries):
     avn.field_mode(seed * 7919 + t, decide=lambda nm: 1 if nm.kind == 'any' else None, bool_default=bool_default)
@@ -179,6 +188,9 @@ def trial(seed, body, max_tries=60, bool_default=None):
       return body()
     except avn.NonResidue:
       continue
+    except IndexError as e:
+      # the interpreted program indexes an array out of bounds (JAX would silently clamp a gather / drop a scatter)
+      return OOB(str(e))
     finally:
       avn.exact_mode()
   raise AnalysisError('C05: no random point with all square-root arguments quadratic residues in %d tries' % max_tries)
@@ -207,7 +219,7 @@ def equivariance(U, rep, tier):
         if found:
           break
       rep.check(found is None, 'R5.1', '%s pipeline: rigidly moved scene [%s]' % (backend, name),
-                lambda: 'after %s the run on the moved scene is not the moved run: %s differ' % (found[0], ', '.join(found[1][:8])),
+                lambda: _why(found, lambda: 'after %s the run on the moved scene is not the moved run: %s differ' % (found[0], ', '.join(found[1][:8]))),
                 where=f.where(), construct='init + %d step(s): x -> G o x, xd -> R xd, root q moved, other q / qd unchanged' % steps)
 
 
@@ -323,8 +335,8 @@ def sibling_order(U, rep, tier):
         if found:
           break
       rep.check(found is None, 'R5.2', '%s pipeline: links listed in another order [%s]' % (backend, name),
-                lambda: 'with the links listed in the order %r, after %s link %d reports different %s' % (
-                    found[0], found[1], found[2], ', '.join(found[3])),
+                lambda: _why(found, lambda: 'with the links listed in the order %r, after %s link %d reports different %s' % (
+                    found[0], found[1], found[2], ', '.join(found[3]))),
                 where=f.where(), construct='%d link orders; init + %d step(s); per-link x, xd, q, qd permuted' % (len(perms), steps))
 
 
@@ -369,8 +381,8 @@ def components(U, rep, tier):
         if found:
           break
       rep.check(found is None, 'R5.3', '%s pipeline: [%s] merged with [%s] evolves as each alone' % (backend, na, nb),
-                lambda: 'in the merged system, after %s link %d of the %s model reports different %s than the model alone' % (
-                    found[1], found[2], found[0], ', '.join(found[3])),
+                lambda: _why(found, lambda: 'in the merged system, after %s link %d of the %s model reports different %s than the model alone' % (
+                    found[1], found[2], found[0], ', '.join(found[3]))),
                 where=f.where(), construct='init + %d step(s); per-link x, xd, q, qd' % steps)
 
 
